@@ -30,6 +30,7 @@ def main : IO UInt32 := do
   | ["model", "auxtable"] => loopState stdin stdout AuxTable.driverStep {}
   | ["model", "forest"] => loopState stdin stdout Forest.driverStep {}
   | ["model", "index"] => loopState stdin stdout Index.driverStep {}
+  | ["model", "symscopes"] => loopState stdin stdout SymExpr.scopesDriverStep {}
   | ["model", "msg"] => loopPure stdin stdout Msg.driverStep
   | ["model", "symexpr"] => loopState stdin stdout SymExpr.driverStep {}
   | ["model", "loader"] => loopPure stdin stdout Loader.driverStep
